@@ -218,14 +218,88 @@ func (li *lockInfo) lockOp(c *ssa.CallCommon) (string, bool) {
 	if len(c.Args) > 0 {
 		rv = c.Args[0]
 	}
-	resolved := false
-	if u, ok := rv.(*ssa.UnOp); ok { // pointer mutex: load of the field
-		rv = u.X
+	return f.Name(), li.isLockRecv(rv, 0)
+}
+
+// isLockRecv: v denotes the struct's lock - the field itself (or the pointer
+// loaded from it), possibly through a local variable that only ever holds
+// that pointer, also when the variable is captured by a closure.
+func (li *lockInfo) isLockRecv(v ssa.Value, depth int) bool {
+	if v == nil || depth > 6 {
+		return false
 	}
-	if fa, ok := rv.(*ssa.FieldAddr); ok && li.isS(fa.X.Type()) && fa.Field == li.lockIdx {
-		resolved = true
+	switch x := v.(type) {
+	case *ssa.FieldAddr:
+		return li.isS(x.X.Type()) && x.Field == li.lockIdx
+	case *ssa.UnOp:
+		return li.isLockRecv(x.X, depth+1)
+	case *ssa.Phi:
+		for _, e := range x.Edges {
+			if !li.isLockRecv(e, depth+1) {
+				return false
+			}
+		}
+		return len(x.Edges) > 0
+	case *ssa.Alloc:
+		n := 0
+		for _, ref := range *x.Referrers() {
+			if st, ok := ref.(*ssa.Store); ok && st.Addr == ssa.Value(x) {
+				if !li.isLockRecv(st.Val, depth+1) {
+					return false
+				}
+				n++
+			}
+		}
+		return n > 0
+	case *ssa.FreeVar:
+		fn := x.Parent()
+		par := fn.Parent()
+		if par == nil {
+			return false
+		}
+		for i, fv := range fn.FreeVars {
+			if fv != x {
+				continue
+			}
+			for _, b := range par.Blocks {
+				for _, in := range b.Instrs {
+					if mc, ok := in.(*ssa.MakeClosure); ok && mc.Fn == ssa.Value(fn) && i < len(mc.Bindings) {
+						return li.isLockRecv(mc.Bindings[i], depth+1)
+					}
+				}
+			}
+		}
 	}
-	return f.Name(), resolved
+	return false
+}
+
+// releaseClosure: fn is a closure whose only mutex operation is one release of
+// the struct's lock (the body of "defer func() { lock.Unlock() }()").
+func (li *lockInfo) releaseClosure(fn *ssa.Function) (string, bool) {
+	if fn == nil || fn.Parent() == nil || fn.Blocks == nil {
+		return "", false
+	}
+	op := ""
+	for _, b := range fn.Blocks {
+		for _, in := range b.Instrs {
+			ci, ok := in.(ssa.CallInstruction)
+			if !ok {
+				continue
+			}
+			o, resolved := li.lockOp(ci.Common())
+			if o == "" {
+				continue
+			}
+			if !resolved || (o != "Unlock" && o != "RUnlock") || op != "" {
+				return "", false
+			}
+			if _, isDefer := in.(*ssa.Defer); isDefer {
+				return "", false
+			}
+			op = o
+		}
+	}
+	return op, op != ""
 }
 
 // accessesOf lists guarded-field accesses of one instruction.
@@ -356,7 +430,9 @@ func (li *lockInfo) run(r *Report) {
 		for _, b := range fn.Blocks {
 			for _, in := range b.Instrs {
 				if ci, ok := in.(ssa.CallInstruction); ok {
-					if op, resolved := li.lockOp(ci.Common()); op != "" {
+					if _, isRel := li.releaseClosure(fn); isRel {
+						// the body of a deferred release: accounted for where it is deferred
+					} else if op, resolved := li.lockOp(ci.Common()); op != "" {
 						fi.locker = true
 						if !resolved {
 							r.Undecided("R12a", p.FuncName(fn)+"/lockop:"+op, posOf(p, in), "mutex operation whose receiver is not the struct's lock field")
@@ -554,7 +630,18 @@ func (li *lockInfo) checkEntry(r *Report, fi *lkFuncInfo, info map[*ssa.Function
 	transfer := func(b *ssa.BasicBlock, st lkState, report func(rule, key string, in ssa.Instruction, ok bool, detail string)) lkState {
 		for _, ins := range b.Instrs {
 			if ci, ok := ins.(ssa.CallInstruction); ok {
-				if op, _ := li.lockOp(ci.Common()); op != "" {
+				op, _ := li.lockOp(ci.Common())
+				if d, isD := ins.(*ssa.Defer); isD && op == "" {
+					// defer func() { lock.Unlock() }()
+					if mc, ok := d.Call.Value.(*ssa.MakeClosure); ok {
+						if cf, ok := mc.Fn.(*ssa.Function); ok {
+							if o, isRel := li.releaseClosure(cf); isRel {
+								op = o
+							}
+						}
+					}
+				}
+				if op != "" {
 					_, isDefer := ins.(*ssa.Defer)
 					switch {
 					case isDefer && (op == "Unlock" || op == "RUnlock"):
